@@ -169,3 +169,7 @@ def inbound_loops(c):
     c.cov["evaluations"] += len(cases)
     c.cov["distinct_nontrivial"] += sum(1 for j in cases if not j["installed"])
     c.cov["parts"]["inbound"] = {"cases": len(cases)}
+
+
+def policy_store(c):
+    c.assumptions.append("policy store (CRUD) half not built yet")
